@@ -34,6 +34,8 @@ def apply(name):
         "map_drop_result": lambda: mutate(c.map, "update", "return self._emit(result, metadata=metadata)", "self._emit(result, metadata=metadata)"),
         "no_inherit_loop": lambda: mutate(c.Stream, "_set_loop", "self.loop = upstream.loop", "pass"),
         "disconnect_one_sided": lambda: mutate(c.Stream, "disconnect", "downstream._remove_upstream(self)", "pass"),
+        "zip_notify_one": lambda: mutate(c.zip, "update", "self.condition.notify_all()", "self.condition.notify()"),
+        "map_async_no_lock": lambda: mutate(c.map_async, "_insert_job", "async with self._insert_lock:", "if True:"),
         "source_start_always": lambda: mutate(s.Source, "start", "if self.stopped:", "if True:"),
     }
     if name == "df_count_size":
